@@ -16,38 +16,38 @@ import (
 
 // evidence accumulates what a run actually covered; every number is measured.
 type evidence struct {
-	d            *driver
-	planned      int
-	evaluations  int
-	skipped      int
-	distinct     map[string]bool // distinct non-trivial scenario hashes
-	interleave   map[string]bool // distinct switch-sequence hashes (with >=1 switch)
-	families     map[string]int
-	strata       map[string]int
-	faults       map[string]int
-	opKinds      map[string]int
-	opOutcomes   map[string]int
-	pairs        map[string]int
-	steps        uint64
-	switches     uint64
-	overlaps     uint64
-	slices       int
-	monitorRuns  int
-	mapVisits    []uint64
-	mapPermuted  []uint64
-	twinRuns     int
-	twinOK       int
-	crashes      int
+	d              *driver
+	planned        int
+	evaluations    int
+	skipped        int
+	distinct       map[string]bool // distinct non-trivial scenario hashes
+	interleave     map[string]bool // distinct switch-sequence hashes (with >=1 switch)
+	families       map[string]int
+	strata         map[string]int
+	faults         map[string]int
+	opKinds        map[string]int
+	opOutcomes     map[string]int
+	pairs          map[string]int
+	steps          uint64
+	switches       uint64
+	overlaps       uint64
+	slices         int
+	monitorRuns    int
+	mapVisits      []uint64
+	mapPermuted    []uint64
+	twinRuns       int
+	twinOK         int
+	crashes        int
 	reuseAfterFail int
-	histories2   int
-	rawFindings  int
-	consequences int
-	twinLogDiffs int
-	known        int
-	violations   int
-	wall         float64
-	samples      []any
-	sourcesUsed  map[string]bool
+	histories2     int
+	rawFindings    int
+	consequences   int
+	twinLogDiffs   int
+	known          int
+	violations     int
+	wall           float64
+	samples        []any
+	sourcesUsed    map[string]bool
 }
 
 func newEvidence(d *driver, planned int) *evidence {
@@ -289,56 +289,56 @@ func (e *evidence) write(path string) error {
 		"a context switch landed inside an operation while another operation was in flight on the same module; a map range with >=2 entries was walked in a non-canonical order; " +
 		"a history of >=2 backend operations ran on one module or on one reusable spirv.Backend."
 	cov := map[string]any{
-		"evaluations":         e.evaluations,
-		"distinct_nontrivial": len(e.distinct),
-		"rule":                rule,
-		"samples":             e.samples,
-		"exhaustive":          false,
-		"planned_scenarios":   e.planned,
-		"skipped_by_wall_clock_cap": e.skipped,
-		"scenarios_per_hour":  int(float64(e.evaluations) / hours),
-		"seeds_per_hour":      int(float64(e.evaluations) / hours),
-		"executions":          d.x.runs.Load(),
-		"os_processes_started": d.x.procs.Load(),
-		"fresh_process_executions": d.x.fresh.Load(),
-		"serving_workers_retired": d.x.retired.Load(),
-		"references_computed": d.x.refRuns.Load(),
-		"reference_cache_hits": d.x.refHits.Load(),
-		"simulated_time_logical_steps": e.steps,
+		"evaluations":                        e.evaluations,
+		"distinct_nontrivial":                len(e.distinct),
+		"rule":                               rule,
+		"samples":                            e.samples,
+		"exhaustive":                         false,
+		"planned_scenarios":                  e.planned,
+		"skipped_by_wall_clock_cap":          e.skipped,
+		"scenarios_per_hour":                 int(float64(e.evaluations) / hours),
+		"seeds_per_hour":                     int(float64(e.evaluations) / hours),
+		"executions":                         d.x.runs.Load(),
+		"os_processes_started":               d.x.procs.Load(),
+		"fresh_process_executions":           d.x.fresh.Load(),
+		"serving_workers_retired":            d.x.retired.Load(),
+		"references_computed":                d.x.refRuns.Load(),
+		"reference_cache_hits":               d.x.refHits.Load(),
+		"simulated_time_logical_steps":       e.steps,
 		"context_switches_inside_operations": e.switches,
 		"switches_with_other_operation_in_flight_on_same_module": e.overlaps,
-		"scheduler_slices":    e.slices,
-		"invariant_evaluations": e.monitorRuns,
-		"distinct_interleavings": len(e.interleave),
+		"scheduler_slices":               e.slices,
+		"invariant_evaluations":          e.monitorRuns,
+		"distinct_interleavings":         len(e.interleave),
 		"distinct_interleavings_measure": "distinct hashes of the sequence of (task, operation, yield site) at which pre-emptions landed, over runs with >=1 pre-emption",
-		"families":            e.families,
-		"strata":              e.strata,
-		"faults_fired_runs":   e.faults,
-		"operations_by_kind":  e.opKinds,
-		"operation_outcomes":  e.opOutcomes,
+		"families":                       e.families,
+		"strata":                         e.strata,
+		"faults_fired_runs":              e.faults,
+		"operations_by_kind":             e.opKinds,
+		"operation_outcomes":             e.opOutcomes,
 		"backend_pairs_running_vs_in_flight_on_same_module": e.pairs,
-		"histories_with_2plus_backend_ops_on_one_object": e.histories2,
-		"spirv_backend_reused_after_failed_compile": e.reuseAfterFail,
-		"map_sites_total":     d.sites.MapSites,
+		"histories_with_2plus_backend_ops_on_one_object":    e.histories2,
+		"spirv_backend_reused_after_failed_compile":         e.reuseAfterFail,
+		"map_sites_total":                      d.sites.MapSites,
 		"map_sites_visited_with_2plus_entries": len(visited),
-		"map_sites_effectively_permuted": effSites,
-		"map_sites_blind_spots": blind,
-		"map_sites_visited":   visited,
-		"twin_process_runs":   e.twinRuns,
-		"twin_process_identical": e.twinOK,
-		"worker_process_crashes": e.crashes,
-		"distinct_sources_used": len(e.sourcesUsed),
-		"corpus_sources":      len(d.corpus.progs),
-		"raw_findings":        e.rawFindings,
-		"known_findings_matched": e.known,
+		"map_sites_effectively_permuted":       effSites,
+		"map_sites_blind_spots":                blind,
+		"map_sites_visited":                    visited,
+		"twin_process_runs":                    e.twinRuns,
+		"twin_process_identical":               e.twinOK,
+		"worker_process_crashes":               e.crashes,
+		"distinct_sources_used":                len(e.sourcesUsed),
+		"corpus_sources":                       len(d.corpus.progs),
+		"raw_findings":                         e.rawFindings,
+		"known_findings_matched":               e.known,
 		"mismatches_attributed_to_a_reported_or_known_module_alteration": e.consequences,
-		"twin_runs_with_identical_results_but_different_event_log": e.twinLogDiffs,
+		"twin_runs_with_identical_results_but_different_event_log":       e.twinLogDiffs,
 		"instrumentation": map[string]any{"yield_sites": d.sites.YieldSites, "map_sites": d.sites.MapSites, "package_level_variables_monitored": d.sites.Globals,
 			"sync_seams_redirected": d.sites.SyncSeams, "seam_audit_unowned_constructs": audit, "mode": mode, "packages": d.sites.Packages},
 		"components": map[string]any{
-			"real_code": "all compiler packages of /repo's current working tree (wgsl lexer/parser/lowerer, ir passes and validator, spirv, msl, glsl, hlsl, dxil back ends), built from an instrumented scratch copy; public API only",
-			"simulated": []string{"goroutine scheduling (cooperative token, PRNG or explicit schedule)", "map iteration order (RangeMap seam at every map range)", "sync.Pool/Mutex/RWMutex/Once (latent seams; no site today)"},
-			"stubs":     "none",
+			"real_code":    "all compiler packages of /repo's current working tree (wgsl lexer/parser/lowerer, ir passes and validator, spirv, msl, glsl, hlsl, dxil back ends), built from an instrumented scratch copy; public API only",
+			"simulated":    []string{"goroutine scheduling (cooperative token, PRNG or explicit schedule)", "map iteration order (RangeMap seam at every map range)", "sync.Pool/Mutex/RWMutex/Once (latent seams; no site today)"},
+			"stubs":        "none",
 			"not_modelled": []string{"garbage collector", "weak-memory reorderings and torn writes", "interleavings finer than yield granularity (straight-line code without call or loop)"},
 		},
 	}
